@@ -8,14 +8,16 @@ Input (TAB separated):
   1 mode     approve|compare, or do:<word> = `do-approve <word> DEVICE` with an arbitrary action word
   2 name     expected device name
   3 names    name list, comma separated
-  4 banner   "-" = checkbanner not configured, else the marker text (the regexp is a plain word)
+  4 banner   "-" = checkbanner not configured, else the regexp source (Go syntax, parsed by `Rx.parse`)
   5 vsys     target vsys names, comma separated
   6 faultAt  "-" or n: the request that would be the n-th line/HTTP request the device receives
              (0-based) gets no answer; "n+": that request and every later one
   7 plan     change commands separated by U+001F ("\n" inside a command written as \n)
   8… replies  key U+001F occurrence ("*" or n) U+001F reply
       key:   W | C | P | L:<literal> | A:<literal prefix> | X
-      reply: T:<text> | H:<enabled>,<mode>,<state> | F:<hostname>|<vsys>=<display>,… | !:<why>
+      reply: T:<text> | H:<enabled>,<mode>,<state> | F:<hostname>|<vsys>=<display>,… |
+             G:<id>,<id>,…|<cursor> (one page of a listing) | !:<why>
+A line `re` TAB <pattern> TAB <text> asks the regexp matcher: answer 1 | 0 | PARSE.
 Output:
   exit=<n> diag=<0|1> errU=<k> warn=<k> status=<…> trace=<items joined by U+001F> kinds=<one letter per item>
   item: C | W | P | L:<literal> | A:<prefix>|<arg> | X:<command>
@@ -55,6 +57,10 @@ def parseReply (s : String) : Reply :=
         | _ => (kv, "")
       .conf h l
     | _ => .fault "bad F"
+  else if s.startsWith "G:" then
+    match ((s.drop 2).toString).splitOn "|" with
+    | [ids, cur] => .page (if ids.isEmpty then [] else ids.splitOn ",") cur
+    | _ => .fault "bad G"
   else if s.startsWith "!:" then .fault (s.drop 2).toString
   else .fault ("bad reply " ++ s)
 
@@ -106,25 +112,31 @@ def showStatus : Status → String
   | .aborted m => "aborted(" ++ esc m ++ ")"
   | .failed m => "failed(" ++ esc m ++ ")"
   | .panicked m => "panicked(" ++ esc m ++ ")"
+  | .unfinished => "unfinished"
 
 def lower (s : String) : String := s.map Char.toLower
 
 def answer (line : String) : String :=
   match line.splitOn "\t" with
+  | ["re", pat, txt] =>
+    match Rx.parse (unesc pat) with
+    | none => "PARSE"
+    | some r => if r.search (unesc txt).toList then "1" else "0"
   | bs :: mode :: name :: names :: banner :: vsys :: fault :: plan :: rest =>
-    match parseBackend bs with
-    | none => "bad-backend"
-    | some b =>
+    match parseBackend bs, (if banner == "-" then some none else (Rx.parse banner).map some) with
+    | none, _ => "bad-backend"
+    | _, none => "bad-regexp"
+    | some b, some rx =>
       let entries := rest.filterMap parseEntry
       let split (s : String) := if s.isEmpty then [] else s.splitOn ","
       let cfg : Cfg := {
         name := name
         names := split names
-        banner := if banner == "-" then none else some (fun l => l.any fun s => contains s banner)
+        banner := rx
         bannerSrc := if banner == "-" then "" else banner
         targetVsys := split vsys
-        isMarked := fun dn => contains (lower dn) "netspoc"
         isCompare := mode == "compare"
+        fuel := 40
         parses := fun s => !contains s "%%BAD%%" }
       let env : Env := {
         cfg := cfg
